@@ -14,7 +14,8 @@
 (*   help   : "none" | "bare" | "config" | "file-lines" | "bogus"          *)
 (*   pc     : "none" | "default" | "current" | "minimal" | "bogus"         *)
 (*            (--print-config; it consumes the first free argument)        *)
-(*   version, check, cfgemit (--config emit_mode=stdout), backup, list     *)
+(*   version, check, backup, list : BOOLEAN                                *)
+(*   cfgemit : "none" | "stdout" | "files"  (--config emit_mode=..)        *)
 (*   vq     : "none" | "verbose" | "quiet" | "both"                        *)
 (*   unst   : "none" | "bare" (--skip-children alone) | "with"             *)
 (*            (--unstable-features --skip-children)                        *)
@@ -49,7 +50,7 @@ Info(cls, out) == Res(cls, 0, out, Untouched, "absent", FALSE)
 Refused ==
   \/ F.vq = "both"
   \/ F.unst = "bare"                        \* an unstable flag without --unstable-features
-  \/ (F.check /\ F.cfgemit)                 \* fix 79c7fbd
+  \/ (F.check /\ F.cfgemit # "none")        \* fix 79c7fbd
   \/ (F.emit # "none" /\ F.check)
   \/ F.emit = "bogus"
 
@@ -59,7 +60,7 @@ FilesLeft == IF F.pc \in {"minimal"} THEN (IF F.nargs = 0 THEN 0 ELSE F.nargs - 
 (* with nargs = 2 and no --print-config, out.toml would be a (missing) source file: not generated *)
 EffMode ==
   IF F.check THEN "diff"
-  ELSE IF F.cfgemit /\ FilesLeft > 0 THEN "stdout"
+  ELSE IF F.cfgemit # "none" /\ FilesLeft > 0 THEN F.cfgemit   \* --config pairs are applied last
   ELSE IF F.emit = "none" THEN (IF FilesLeft = 0 THEN "stdout" ELSE "files")
   ELSE F.emit
 OutOf(mode) ==
@@ -112,13 +113,13 @@ InfoNeverFormats(r) ==
 (* the source file is rewritten only by a formatting run in files mode -- never under --check, *)
 (* never under another emit mode, never from standard input                                  *)
 WritesOnlyInFilesMode(r) ==
-  r.file = "formatted" => (~Informational /\ ~Refused /\ ~F.check /\ F.emit \in {"none", "files"}
-                           /\ ~F.cfgemit /\ F.nargs > 0)
+  r.file = "formatted" => (~Informational /\ ~Refused /\ ~F.check /\ F.nargs > 0
+                           /\ (F.cfgemit = "files" \/ (F.cfgemit = "none" /\ F.emit \in {"none", "files"})))
 (* a backup exists only next to a file that was rewritten *)
 BackupOnlyWithWrite(r) == r.bk => (r.file = "formatted" /\ F.backup)
 (* an exit status 0 without --check / information means the work was done: the file is formatted *)
 FilesModeDoesTheWork(r) ==
-  (~Refused /\ ~Informational /\ F.nargs = 1 /\ F.pc = "none" /\ ~F.check /\ ~F.cfgemit
+  (~Refused /\ ~Informational /\ F.nargs = 1 /\ F.pc = "none" /\ ~F.check /\ F.cfgemit = "none"
    /\ F.emit \in {"none", "files"} /\ r.exit = 0) => r.file = "formatted"
 Clauses == {"ExitIs01", "RefusalIsClean", "InfoNeverFormats", "WritesOnlyInFilesMode",
             "BackupOnlyWithWrite", "FilesModeDoesTheWork"}
